@@ -10,10 +10,9 @@ the model driver pushes each line through the same `step`.
 `Cfg.gen` carries what the extractor reads from `impl Drop for iour::Driver`: the ORDER of its statements
 (`Gen.iourDriverDrop`) and whether its CQ drain loop looks at the `more` flag (`Gen.iourDropDrainChecksMore`).
 
-Guard `s.hazard = false`: the drain loop of `Drop` met no CQE flagged `more`. At the pinned commit the loop
-does not test the flag and turns such a CQE into a second key for the same leaked reference (finding F13,
-witnesses in `Compio.Cex.C01`); `hazard_only_by_drop_drain` says this is the only way the guard can fail, and
-`no_hazard_when_drain_checks_more` that the guard is void once the loop tests the flag.
+No guard is left: the former guard `hazard = false` (finding F13: the `Drop` drain loop turned CQEs flagged `more`
+into keys) is discharged by `no_hazard`, because the repaired loop — as read from the source by the extractor — skips
+such CQEs. Pre-fix witnesses: `Compio.Cex.C01`.
 
 Kernel assumption A-K1 is built into the LTS: `kPost` is only accepted for an op the kernel still has in
 flight and while the ring is open.
@@ -26,23 +25,66 @@ open Compio Compio.KeyLife Compio.PollQueues
 
 variable {d : Drv} {cap : Nat} {evs : List Event} {s : State}
 
+/-! ### the F13 guard is discharged
+
+`State.hazard` records that the drain loop of `Drop for iour::Driver` turned a CQE flagged `more` back into a key
+(finding F13). Since commit 4ea6d14 the loop skips such CQEs; the extractor reads that from the source
+(`Gen.iourDropDrainChecksMore = true`), and with it the flag can never be raised: the ownership theorems below hold
+for EVERY run, without guard. (`Compio.Cex.C01` keeps the pre-fix loop as a witness.) -/
+
+/-- the guard can only be broken by the drain statement of `Drop` meeting an unseen CQE flagged `more`
+while the loop does not test the flag -/
+theorem hazard_only_by_drop_drain {c : Cfg} {s s' : State} {e : Event} (h : step c s e = some s')
+    (h0 : s.hazard = false) (h1 : s'.hazard = true) :
+    e = .dropStep ∧ c.drainChecksMore = false ∧ ∃ o, o ∈ s.ops ∧ o.pendMore ≠ [] := by
+  rcases hazard_step h with h2 | ⟨he, h2⟩
+  · rw [h2, h0] at h1; cases h1
+  · rw [h2, h0] at h1
+    simp only [Bool.false_or, Bool.and_eq_true, Bool.not_eq_true', List.any_eq_true] at h1
+    obtain ⟨hc, o, hm, hp⟩ := h1
+    refine ⟨he, hc, o, hm, ?_⟩
+    intro hnil; rw [hnil] at hp; simp at hp
+
+/-- once the drain loop tests `more(flags)` (the repair of F13) the guard never fails -/
+theorem no_hazard_when_drain_checks_more {c : Cfg} (hc : c.drainChecksMore = true) :
+    ∀ (evs : List Event) (s s' : State), s.hazard = false → run c s evs = some s' → s'.hazard = false := by
+  intro evs
+  induction evs with
+  | nil => intro s s' h0 h; simp [run] at h; subst h; exact h0
+  | cons e es ih =>
+    intro s s' h0 h
+    simp only [run] at h
+    split at h
+    · rename_i s1 hs1
+      refine ih s1 s' ?_ h
+      cases hz : s1.hazard
+      · rfl
+      · have := (hazard_only_by_drop_drain hs1 h0 hz).2.1
+        rw [hc] at this; cases this
+    · cases h
+
+/-- **no hazard with the code as it is**: the extracted `Drop` loop tests `more(flags)` -/
+theorem no_hazard (h : run Cfg.gen (init d cap) evs = some s) : s.hazard = false :=
+  no_hazard_when_drain_checks_more (c := Cfg.gen) rfl evs _ _ rfl h
+
+
 /-- **refcount = |holders|**: the strong count of an operation always equals the number of places that own a
 key: caller handles, the user_data leaked to the kernel (`in_flight`), entries of the completed channel, the
 frozen key of a running pool job, occurrences in the fd queue of the polling driver. Cancel tokens (weak) do
 not count. -/
-theorem refcount_eq_holders (h : run Cfg.gen (init d cap) evs = some s) (hz : s.hazard = false)
+theorem refcount_eq_holders (h : run Cfg.gen (init d cap) evs = some s) 
     {i : Nat} {o : Op} (ho : s.ops[i]? = some o) :
     o.rc = o.user + b2n o.inFl + o.chan.length + b2n o.poolRun + ((s.reg o.fd).sel o.dir).count o.id :=
-  ((reach_inv h hz).ops i o ho).1.rc_eq
+  ((reach_inv h (no_hazard h)).ops i o ho).1.rc_eq
 
 /-- **kernel in flight ⇒ the leaked reference is among the holders**: while the ring is open, an op whose SQE
 is queued or which the kernel has not finished keeps its user_data in `in_flight`, so its storage is neither
 freed nor handed back: buffer, control data and descriptor stay allocated and in place. -/
-theorem kernel_inflight_keeps_leaked_ref (h : run Cfg.gen (init d cap) evs = some s) (hz : s.hazard = false)
+theorem kernel_inflight_keeps_leaked_ref (h : run Cfg.gen (init d cap) evs = some s) 
     {i : Nat} {o : Op} (ho : s.ops[i]? = some o) (hr : s.ring = true)
     (hk : o.kstat = .queued ∨ o.kstat = .inflight) :
     o.inFl = true ∧ 0 < o.rc ∧ o.freed = 0 ∧ o.returned = 0 := by
-  have ok := ((reach_inv h hz).ops i o ho).1
+  have ok := ((reach_inv h (no_hazard h)).ops i o ho).1
   have hfl := ok.kern hr hk
   have hrc : 0 < o.rc := by rw [ok.rc_eq]; unfold holders; rw [hfl]; simp; omega
   have := ok.rcok.rel1 hrc
@@ -50,20 +92,20 @@ theorem kernel_inflight_keeps_leaked_ref (h : run Cfg.gen (init d cap) evs = som
 
 /-- **released at most once, never touched afterwards**: freed at most once, handed back at most once, never
 both, and no key is ever used or dropped after the release (no double free, no use after free). -/
-theorem released_at_most_once (h : run Cfg.gen (init d cap) evs = some s) (hz : s.hazard = false)
+theorem released_at_most_once (h : run Cfg.gen (init d cap) evs = some s) 
     {i : Nat} {o : Op} (ho : s.ops[i]? = some o) :
     o.freed + o.returned ≤ 1 ∧ o.uaf = false := by
-  have ok := ((reach_inv h hz).ops i o ho).1
+  have ok := ((reach_inv h (no_hazard h)).ops i o ho).1
   refine ⟨?_, ok.rcok.no_uaf⟩
   by_cases hrc : o.rc = 0
   · have := ok.rcok.rel0 hrc; omega
   · have := ok.rcok.rel1 (by omega); omega
 
 /-- the release happens exactly when the last holder goes -/
-theorem released_iff_no_holder (h : run Cfg.gen (init d cap) evs = some s) (hz : s.hazard = false)
+theorem released_iff_no_holder (h : run Cfg.gen (init d cap) evs = some s) 
     {i : Nat} {o : Op} (ho : s.ops[i]? = some o) :
     (o.freed + o.returned = 1 ↔ o.rc = 0) := by
-  have ok := ((reach_inv h hz).ops i o ho).1
+  have ok := ((reach_inv h (no_hazard h)).ops i o ho).1
   constructor
   · intro h1
     by_cases hrc : o.rc = 0
@@ -73,25 +115,25 @@ theorem released_iff_no_holder (h : run Cfg.gen (init d cap) evs = some s) (hz :
 
 /-- **freed ⇒ the kernel is done with it, or the ring is closed** -/
 theorem freed_only_when_kernel_done_or_ring_closed (h : run Cfg.gen (init d cap) evs = some s)
-    (hz : s.hazard = false) {i : Nat} {o : Op} (ho : s.ops[i]? = some o) (hf : o.freed = 1) :
+    {i : Nat} {o : Op} (ho : s.ops[i]? = some o) (hf : o.freed = 1) :
     (o.kstat ≠ .queued ∧ o.kstat ≠ .inflight) ∨ s.ring = false := by
   cases hr : s.ring
   · exact Or.inr rfl
   · left
     constructor
     · intro hk
-      have := kernel_inflight_keeps_leaked_ref h hz ho hr (Or.inl hk)
+      have := kernel_inflight_keeps_leaked_ref h ho hr (Or.inl hk)
       omega
     · intro hk
-      have := kernel_inflight_keeps_leaked_ref h hz ho hr (Or.inr hk)
+      have := kernel_inflight_keeps_leaked_ref h ho hr (Or.inr hk)
       omega
 
 /-- **the pool job holds a reference while it runs** (the frozen key): an `Asyncify` closure never runs on
 released storage, however early the caller gives up. -/
-theorem pool_job_holds_ref (h : run Cfg.gen (init d cap) evs = some s) (hz : s.hazard = false)
+theorem pool_job_holds_ref (h : run Cfg.gen (init d cap) evs = some s) 
     {i : Nat} {o : Op} (ho : s.ops[i]? = some o) (hp : o.poolRun = true) :
     0 < o.rc ∧ o.freed = 0 ∧ o.returned = 0 := by
-  have ok := ((reach_inv h hz).ops i o ho).1
+  have ok := ((reach_inv h (no_hazard h)).ops i o ho).1
   have hrc : 0 < o.rc := by rw [ok.rc_eq]; unfold holders; rw [hp]; simp; omega
   have := ok.rcok.rel1 hrc
   exact ⟨hrc, by omega, by omega⟩
@@ -110,12 +152,12 @@ theorem handed_back_only_after_final_cqe {c : Cfg} (h : run c (init d cap) evs =
 /-- **no leak, no double free at the end**: once the driver is dropped, every pool job has finished and the
 caller has released its handles, every operation has been released exactly once (freed by the driver or handed
 back to the caller). -/
-theorem no_leak_after_driver_drop (h : run Cfg.gen (init d cap) evs = some s) (hz : s.hazard = false)
+theorem no_leak_after_driver_drop (h : run Cfg.gen (init d cap) evs = some s) 
     (hdead : s.alive = false) (hpc : s.dropPc = none)
     (hjobs : ∀ (i : Nat) (o : Op), s.ops[i]? = some o → o.poolRun = false)
     {i : Nat} {o : Op} (ho : s.ops[i]? = some o) (hu : o.user = 0) :
     o.freed + o.returned = 1 := by
-  have hi := reach_inv h hz
+  have hi := reach_inv h (no_hazard h)
   have ok := (hi.ops i o ho).1
   obtain ⟨hch, hreg, hfl⟩ := hi.dead_ok hdead hpc
   have hchan := hi.chan_ok hch hjobs i o ho
@@ -127,22 +169,22 @@ theorem no_leak_after_driver_drop (h : run Cfg.gen (init d cap) evs = some s) (h
   exact ok.rcok.rel0 hrc
 
 /-- after the driver is dropped nothing is leaked to the kernel any more and no fd queue holds a key -/
-theorem driver_drop_releases_driver_side (h : run Cfg.gen (init d cap) evs = some s) (hz : s.hazard = false)
+theorem driver_drop_releases_driver_side (h : run Cfg.gen (init d cap) evs = some s) 
     (hdead : s.alive = false) (hpc : s.dropPc = none) {i : Nat} {o : Op} (ho : s.ops[i]? = some o) :
     o.inFl = false ∧ (∀ fd, s.reg fd = FdQ.empty) := by
-  obtain ⟨_, hreg, hfl⟩ := (reach_inv h hz).dead_ok hdead hpc
+  obtain ⟨_, hreg, hfl⟩ := (reach_inv h (no_hazard h)).dead_ok hdead hpc
   exact ⟨hfl i o ho, hreg⟩
 
 /-- **polling driver: the key stored in the poller is a key the driver owns.** While the proactor is alive, what
 the poller watches for a descriptor is `event()` of its queues, so the user-data key an event carries (it is
 dereferenced through a `BorrowedKey` in `poll`) is the head of a queue: that operation exists, the queue holds a
 counted reference to it, and it has not been released. -/
-theorem poller_key_is_alive (h : run Cfg.gen (init d cap) evs = some s) (hz : s.hazard = false)
+theorem poller_key_is_alive (h : run Cfg.gen (init d cap) evs = some s) 
     (ha : s.alive = true) {fd k : Nat} (hk : (s.armed fd).key = some k) :
     s.armed fd = (s.reg fd).event ∧
       ∃ o, s.ops[k]? = some o ∧ o.fd = fd ∧ 0 < o.rc ∧ o.freed = 0 ∧ o.returned = 0 := by
-  have hi := reach_inv h hz
-  have harm := run_arm gen_good evs _ _ (inv_init _ d cap) (arm_init d cap) h hz ha fd
+  have hi := reach_inv h (no_hazard h)
+  have harm := run_arm gen_good evs _ _ (inv_init _ d cap) (arm_init d cap) h (no_hazard h) ha fd
   refine ⟨harm, ?_⟩
   rw [harm] at hk
   -- the key is the head of the write queue, else of the read queue
@@ -183,57 +225,26 @@ theorem ring_closed_before_free :
 
 /-- inside `Drop`, the ring is open exactly until the `closeRing` statement has run, and from the
 `freeInFlight` statement on nothing is leaked -/
-theorem drop_phase (h : run Cfg.gen (init d cap) evs = some s) (hz : s.hazard = false) {k : Nat}
+theorem drop_phase (h : run Cfg.gen (init d cap) evs = some s) {k : Nat}
     (hk : s.dropPc = some k) :
     s.ring = !(((dropProg Cfg.gen s.drv).take k).contains .closeRing) ∧
       ((((dropProg Cfg.gen s.drv).take k).contains .freeInFlight) = true →
         ∀ (i : Nat) (o : Op), s.ops[i]? = some o → o.inFl = false) := by
-  obtain ⟨_, _, _, h4, h5⟩ := (reach_inv h hz).pc_ok k hk
+  obtain ⟨_, _, _, h4, h5⟩ := (reach_inv h (no_hazard h)).pc_ok k hk
   exact ⟨h4, h5⟩
-
-/-- the guard can only be broken by the drain statement of `Drop` meeting an unseen CQE flagged `more`
-while the loop does not test the flag -/
-theorem hazard_only_by_drop_drain {c : Cfg} {s s' : State} {e : Event} (h : step c s e = some s')
-    (h0 : s.hazard = false) (h1 : s'.hazard = true) :
-    e = .dropStep ∧ c.drainChecksMore = false ∧ ∃ o, o ∈ s.ops ∧ o.pendMore ≠ [] := by
-  rcases hazard_step h with h2 | ⟨he, h2⟩
-  · rw [h2, h0] at h1; cases h1
-  · rw [h2, h0] at h1
-    simp only [Bool.false_or, Bool.and_eq_true, Bool.not_eq_true', List.any_eq_true] at h1
-    obtain ⟨hc, o, hm, hp⟩ := h1
-    refine ⟨he, hc, o, hm, ?_⟩
-    intro hnil; rw [hnil] at hp; simp at hp
-
-/-- once the drain loop tests `more(flags)` (the repair of F13) the guard never fails -/
-theorem no_hazard_when_drain_checks_more {c : Cfg} (hc : c.drainChecksMore = true) :
-    ∀ (evs : List Event) (s s' : State), s.hazard = false → run c s evs = some s' → s'.hazard = false := by
-  intro evs
-  induction evs with
-  | nil => intro s s' h0 h; simp [run] at h; subst h; exact h0
-  | cons e es ih =>
-    intro s s' h0 h
-    simp only [run] at h
-    split at h
-    · rename_i s1 hs1
-      refine ih s1 s' ?_ h
-      cases hz : s1.hazard
-      · rfl
-      · have := (hazard_only_by_drop_drain hs1 h0 hz).2.1
-        rw [hc] at this; cases this
-    · cases h
 
 /-! ### non-vacuity: the hypotheses are met by concrete, non-trivial runs -/
 
 /-- a receive is in flight on io_uring, the caller has dropped its future (`Proactor::cancel`): the kernel's
 leaked reference is the only holder, nothing is freed -/
 example :
-    (run Cfg.gen (init .iour 2) [.pushSq .single 0 .rd, .submit, .userCancel 0]).map
+    (run Cfg.gen (init .iour 2) [.pushSq .single 0 .rd, .submit, .userCancel 0 []]).map
       (fun s => (s.hazard, s.ring, s.ops.map fun o => (o.kstat, o.rc, o.user, o.inFl, o.freed, o.cancelSq)))
     = some (false, true, [(.inflight, 1, 0, true, 0, 1)]) := by rfl
 
 /-- … the kernel honours the cancel, the final CQE is processed: freed exactly once -/
 example :
-    (run Cfg.gen (init .iour 2) [.pushSq .single 0 .rd, .submit, .userCancel 0, .submit,
+    (run Cfg.gen (init .iour 2) [.pushSq .single 0 .rd, .submit, .userCancel 0 [], .submit,
         .kPost 0 false ECANCELED, .pollEntries]).map
       (fun s => s.ops.map fun o => (o.kstat, o.rc, o.inFl, o.freed, o.returned, o.result))
     = some [(.done, 0, false, 1, 0, some ECANCELED)] := by rfl
@@ -254,14 +265,28 @@ example :
 
 /-- a pool job outlives both the caller's handle and the proactor; its reference is the last one -/
 example :
-    (run Cfg.gen (init .poll 8) [.pushBlocking, .userCancel 0, .dropBegin, .dropStep, .dropStep]).map
+    (run Cfg.gen (init .poll 8) [.pushBlocking, .userCancel 0 [], .dropBegin, .dropStep, .dropStep]).map
       (fun s => (s.alive, s.dropPc, s.ops.map fun o => (o.poolRun, o.rc, o.freed)))
     = some (false, none, [(true, 1, 0)]) := by rfl
 
 example :
-    (run Cfg.gen (init .poll 8) [.pushBlocking, .userCancel 0, .dropBegin, .dropStep, .dropStep,
+    (run Cfg.gen (init .poll 8) [.pushBlocking, .userCancel 0 [], .dropBegin, .dropStep, .dropStep,
         .poolDone 0 (.ok 7)]).map
       (fun s => s.ops.map fun o => (o.poolRun, o.rc, o.freed, o.uaf))
     = some [(false, 0, 1, false)] := by rfl
+
+/-- the former F13 shape: zero-copy send submitted, both CQEs unseen, caller still holds the key, proactor dropped —
+the op is NOT released under the caller; it is freed exactly once when the caller lets go -/
+example :
+    (run Cfg.gen (init .iour 4) [.pushSq .zc 6 .wr, .submit, .kPost 0 true (.ok 5), .kPost 0 false (.ok 0),
+        .dropBegin, .dropStep, .dropStep, .dropStep, .dropStep]).map
+      (fun s => (s.hazard, s.ops.map fun o => (o.user, o.rc, o.freed, o.uaf)))
+    = some (false, [(1, 1, 0, false)]) := by rfl
+
+example :
+    (run Cfg.gen (init .iour 4) [.pushSq .zc 6 .wr, .submit, .kPost 0 true (.ok 5), .kPost 0 false (.ok 0),
+        .dropBegin, .dropStep, .dropStep, .dropStep, .dropStep, .userDrop 0]).map
+      (fun s => s.ops.map fun o => (o.user, o.rc, o.freed, o.uaf))
+    = some [(0, 0, 1, false)] := by rfl
 
 end Compio.Props.C01
